@@ -132,6 +132,29 @@ func init() {
 			}
 			runStagedCapture(w, v.staged("diff-"+a.profile), v.label(), nil, 0, refs, extra)
 		}
+		if a.profile == "c14" {
+			// slices of DELEGATED phases: the ObjectSetPhase object carries the objects of the slices; reference = the
+			// same delegation with the objects inline
+			for _, d := range []map[string][]bool{{"a1": {true, false}, "a2": {false, true}}, {"a1": {true, true}, "a2": {true, true}}} {
+				var drefs [][]any
+				for _, m1 := range masks {
+					for _, m2 := range masks {
+						if !m1[0] && !m1[1] && !m2[0] && !m2[1] {
+							continue
+						}
+						job++
+						if job%a.shards != a.shard {
+							continue
+						}
+						if drefs == nil {
+							drefs = runStagedCapture(w, variant{Deleg: d}.staged("diff-base-deleg"), "reference "+variant{Deleg: d}.label(), nil, 0, nil, nil)
+						}
+						v := variant{Deleg: d, Sliced: map[string][]bool{"a1": m1, "a2": m2}}
+						runStagedCapture(w, v.staged("diff-"+a.profile), v.label(), nil, 0, drefs, extra)
+					}
+				}
+			}
+		}
 		return 0
 	}
 }
